@@ -188,7 +188,7 @@ def write_side(plan, sim):
         same_data = rg.ok and rr.ok and sorted(rg.items, key=repr) == sorted(rr.items, key=repr)
         v.append({"clause": "C15.serializers_differ",
                   "sig": {"physical": cfg_g["physical"], "input": "generator" if entry in ("frames_gen", "flat_file")
-                          else "container"},
+                          else "container", "same_statements": bool(same_data)},
                   "msg": f"generic wrote {len(out_g)} bytes, rdflib {len(out_r)} bytes for corresponding input and "
                          f"equal options ({entry}); same statements as a bag: {same_data}; generic order "
                          f"{[i for i in rg.items][:3]!r} rdflib order {[i for i in rr.items][:3]!r}"})
